@@ -1558,6 +1558,301 @@ def run_history(hseed, want_lines=False):
     return fails, len(steps), lines
 
 
+# ----------------------------------------------------------------------------- parametric linear models
+#
+# Models that are linear in the variables with scalar Parameters as coefficients / right-hand sides / constants,
+# SEVERAL DISTINCT Parameter objects with the SAME name included (Parameter.__eq__ / __hash__ go by name), in
+# histories  solve -> set one (or two) parameters -> solve -> ...   The oracle is conditional: WHENEVER the tree under
+# test holds LP data for such a model (Problem._lp_cache after a solve, LinearProgramExtractor().extract, the arrays
+# handed to linprog), these data must denote the model at the parameter values the HARNESS last passed to set() (its
+# own bookkeeping `pv`, not read back from the objects), judged by Fraction evaluation of the recipe at integer points.
+
+PARAM_VAR_NAMES = ["a", "b", "cap", "k1", "k10", "k2", "load", "x", "y"]
+PARAM_BASE_NAMES = ["cost", "demand", "p", "price", "rate"]
+
+
+def _close(want, got):
+    w, g = float(want), float(got)
+    return abs(w - g) <= 1e-9 * (1.0 + abs(w) + abs(g))
+
+
+def run_param_history(hseed):
+    """a pure function of its seed.  returns (failures, steps done, number of LP data sets judged)"""
+    from optyx import Parameter, Problem, Variable
+    import scipy.optimize as LPS   # the seam: solve_lp does `from scipy.optimize import linprog` inside the call
+
+    rng = core.Rng(hseed)
+    Fr = Fraction
+    pval = lambda: rng.choice([1.0, 2.0, 3.0, -1.0, 0.5, 1.5, 4.0, -2.0, 0.25, 5, 2, -3, 8.0])   # never 0: x / p stays regular
+    nv = rng.randint(2, 4)
+    xs = [Variable(nm, lb=rng.choice([0, 0.0, -1.0, 0.5]), ub=rng.choice([6, 4.0, 10.0, 2.5]))
+          for nm in sorted(rng.sample(PARAM_VAR_NAMES, nv))]
+    npar = rng.randint(2, 4)
+    scheme = rng.choice(["distinct", "all-same", "all-same", "pairs", "pairs", "same-as-variable"])
+    base = rng.choice(PARAM_BASE_NAMES)
+    if scheme == "distinct":
+        pnames = [f"{base}{j}" for j in range(npar)]
+    elif scheme == "all-same":
+        pnames = [base] * npar
+    elif scheme == "pairs":
+        pnames = [f"{base}{j // 2}" for j in range(npar)]
+    else:   # a parameter called like a variable of the model, the others share one name
+        pnames = [xs[0].name] + [base] * (npar - 1)
+    pv = [Fr(pval()) for _ in range(npar)]                      # the harness's bookkeeping
+    params = [Parameter(nm, float(v)) for nm, v in zip(pnames, pv)]
+    numeric_only = rng.random() < 0.12                          # no Parameter in the model: an LP on every tree
+
+    def pexpr():
+        """a parameter-valued scalar: (optyx node or number, pv -> Fraction)"""
+        k = rng.choice([2.0, 0.5, 3, -1.0, 4.0, 1.5, -2])
+        if numeric_only or rng.random() < 0.15:
+            return k, (lambda pv, k=k: Fr(k))
+        i, j = rng.randrange(npar), rng.randrange(npar)
+        p, q = params[i], params[j]
+        return rng.choice([
+            lambda: (p, lambda pv: pv[i]),
+            lambda: (p, lambda pv: pv[i]),
+            lambda: (k * p, lambda pv: Fr(k) * pv[i]),
+            lambda: (p * k, lambda pv: pv[i] * Fr(k)),
+            lambda: (-p, lambda pv: -pv[i]),
+            lambda: (p + k, lambda pv: pv[i] + Fr(k)),
+            lambda: (k - p, lambda pv: Fr(k) - pv[i]),
+            lambda: (p / 2, lambda pv: pv[i] / 2),
+            lambda: (p + q, lambda pv: pv[i] + pv[j]),
+            lambda: (p - q, lambda pv: pv[i] - pv[j]),
+            lambda: (p * q, lambda pv: pv[i] * pv[j]),
+        ])()
+
+    def term(x):
+        """coefficient · x in one of the writing styles: (optyx expr, pv -> Fraction coefficient)"""
+        w, f = pexpr()
+        r = rng.random()
+        if r < 0.4:
+            return w * x, f
+        if r < 0.75:
+            return x * w, f
+        if r < 0.85 and not numeric_only:
+            i = rng.randrange(npar)                              # x / p: parameter values are never 0
+            return x / params[i], (lambda pv: 1 / pv[i])
+        if r < 0.93:
+            return -(w * x), (lambda pv: -f(pv))
+        return (w * x) * 2, (lambda pv: 2 * f(pv))
+
+    def lin(vs, const_p):
+        """(optyx expr, pv -> ({name: Fraction}, Fraction))"""
+        e, parts = None, []
+        for x in vs:
+            t, f = term(x)
+            sub = e is not None and rng.random() < 0.3
+            e = t if e is None else (e - t if sub else e + t)
+            parts.append((x.name, f, -1 if sub else 1))
+        kf = None
+        if rng.random() < const_p:
+            w, kf = pexpr()
+            left = rng.random() < 0.25 and not isinstance(w, (int, float))
+            e = (w + e) if left else (e + w)
+
+        def aff(pv):
+            co = {}
+            for nm, f, s in parts:
+                co[nm] = co.get(nm, Fr(0)) + s * f(pv)
+            return co, (kf(pv) if kf is not None else Fr(0))
+        return e, aff
+
+    def constraint():
+        vs = rng.sample(xs, rng.randint(1, len(xs)))
+        if rng.random() < 0.25:
+            vs = vs + [rng.choice(vs)]                           # the same variable twice: coefficients add up
+        lhs, fl = lin(vs, 0.3)
+        w, fr = pexpr()
+        s = rng.choice(["<=", "<=", ">=", ">=", "=="])
+        con = (lhs <= w) if s == "<=" else (lhs >= w) if s == ">=" else lhs.eq(w)
+
+        def aff(pv):
+            co, k = fl(pv)
+            return co, k - fr(pv)
+        return con, aff, s
+
+    def objective():
+        vs = rng.sample(xs, rng.randint(1, len(xs)))
+        return lin(vs, 0.6)
+
+    P = Problem()
+    model = {"obj": None, "sense": None, "cons": []}
+
+    def set_objective():
+        e, aff = objective()
+        model["sense"] = rng.choice(["min", "max"])
+        (P.minimize if model["sense"] == "min" else P.maximize)(e)
+        model["obj"] = aff
+
+    def add_constraint():
+        con, aff, s = constraint()
+        P.subject_to(con)
+        model["cons"].append((aff, s))
+
+    fails, steps, judged = [], [], [0]
+
+    def where():
+        return {"param_history_seed": hseed, "steps": list(steps), "parameter_names": pnames,
+                "parameter_values_last_set": [str(v) for v in pv], "naming": scheme}
+
+    def judge(what, names, c, c0, sense, A_ub, b_ub, A_eq, b_eq):
+        """LP data of the tree under test vs the recipe at the harness's parameter values"""
+        judged[0] += 1
+        want_names = [v.name for v in P.variables]
+        if list(names) != want_names:
+            fails.append({"what": f"{what}: variables are not the problem's variable order", "got": list(names), "want": want_names, **where()})
+            return
+        if sense is not None and sense != model["sense"]:
+            fails.append({"what": f"{what}: sense differs", "got": sense, "want": model["sense"], **where()})
+        F = lambda a: [Fr(float(t)) for t in np.asarray(a, dtype=float).ravel().tolist()]
+        rows = {"ub": ([F(r) for r in A_ub] if A_ub is not None else [], F(b_ub) if b_ub is not None else []),
+                "eq": ([F(r) for r in A_eq] if A_eq is not None else [], F(b_eq) if b_eq is not None else [])}
+        ub = [(aff, s) for aff, s in model["cons"] if s != "=="]
+        eq = [(aff, s) for aff, s in model["cons"] if s == "=="]
+        if [len(rows["ub"][0]), len(rows["ub"][1]), len(rows["eq"][0]), len(rows["eq"][1])] != [len(ub), len(ub), len(eq), len(eq)]:
+            fails.append({"what": f"{what}: number of rows differs from the number of constraints of that kind", **where()})
+            return
+        cc = F(c)
+        if len(cc) != len(names):
+            fails.append({"what": f"{what}: len(c) != number of variables", **where()})
+            return
+        prng = core.Rng(hseed ^ 0x5A5A)
+        for _ in range(3):
+            pt = {nm: Fr(prng.randint(-5, 5)) for nm in names}
+            value = lambda co, k: sum((a * pt[nm] for nm, a in co.items()), Fr(0)) + k
+            dot = lambda row: sum((a * pt[nm] for a, nm in zip(row, names)), Fr(0))
+            n0 = len(fails)
+            if c0 is not None:
+                want, got = value(*model["obj"](pv)), dot(cc) + Fr(float(c0))
+                if not _close(want, got):
+                    fails.append({"what": f"{what}: c·x + c0 differs from the objective at the parameter values last set",
+                                  "point": {k: str(v) for k, v in pt.items()}, "got": str(got), "want": str(want), **where()})
+            else:   # no constant available on this channel (linprog kwargs): compare the differences to the origin
+                co, _k = model["obj"](pv)
+                want, got = value(co, Fr(0)), dot(cc)
+                if not _close(want, got):
+                    fails.append({"what": f"{what}: c·x differs from the linear part of the objective at the parameter values last set",
+                                  "point": {k: str(v) for k, v in pt.items()}, "got": str(got), "want": str(want), **where()})
+            for kind, cons in (("ub", ub), ("eq", eq)):
+                for r, (aff, s) in enumerate(cons):
+                    val = value(*aff(pv))
+                    want = -val if s == ">=" else val
+                    got = dot(rows[kind][0][r]) - rows[kind][1][r]
+                    if not _close(want, got):
+                        fails.append({"what": f"{what}: row·x − rhs differs from the user's constraint ({s}, {kind} row {r}) at the parameter values last set",
+                                      "point": {k: str(v) for k, v in pt.items()}, "got": str(got), "want": str(want), **where()})
+            if len(fails) > n0:
+                return
+
+    def judge_lp(what, lp):
+        judge(what, lp.variables, lp.c, lp.c0, lp.sense, lp.A_ub, lp.b_ub, lp.A_eq, lp.b_eq)
+
+    def solve():
+        seen = []
+        orig = LPS.linprog
+
+        def spy(*a, **kw):
+            seen.append({k: (np.array(kw[k], dtype=float, copy=True) if kw.get(k) is not None else None) for k in ("c", "A_ub", "b_ub", "A_eq", "b_eq")})
+            return orig(*a, **kw)
+
+        sol = None
+        LPS.linprog = spy
+        try:
+            with warnings.catch_warnings(), np.errstate(all="ignore"):
+                warnings.simplefilter("ignore")
+                try:
+                    # "problems optyx treats as a linear program": the default route when the tree classifies the model as
+                    # linear, else an explicit request for the LP route (the tree may refuse: an error class, not judged);
+                    # models the tree sends to the NLP solvers are not this property's subject (and slow)
+                    if P._is_linear_problem():
+                        method = rng.choice(["auto", "auto", "auto", "linprog", "highs"])
+                    else:
+                        method = rng.choice(["linprog", "highs"])
+                    steps[-1] = f"solve(method={method!r})"
+                    sol = P.solve(method=method)
+                except Exception as ex:  # noqa: BLE001   (infeasible / unbounded / refused models: not this property)
+                    steps.append(f"solve raised {type(ex).__name__}")
+        finally:
+            LPS.linprog = orig
+        names = [v.name for v in P.variables]
+        for kw in seen[:1]:
+            if kw["c"] is not None:
+                c = kw["c"] if model["sense"] == "min" else -kw["c"]
+                judge("the arrays solve() handed to linprog", names, c, None, None, kw["A_ub"], kw["b_ub"], kw["A_eq"], kw["b_eq"])
+        cached = getattr(P, "_lp_cache", None)
+        if cached is not None and not fails:
+            judge_lp("Problem._lp_cache after solve()", cached)
+        if seen and sol is not None and not fails and getattr(sol, "is_optimal", False) and sol.objective_value is not None:
+            # the LP route answered "optimal": the reported objective value is the user's objective at the reported point
+            try:
+                pt = {nm: Fr(float(sol.values[nm])) for nm in names}
+                co, k = model["obj"](pv)
+                want = float(sum((a * pt[nm] for nm, a in co.items()), Fr(0)) + k)
+                if abs(want - float(sol.objective_value)) > 1e-6 * (1.0 + abs(want)):
+                    fails.append({"what": "LP route: Solution.objective_value is not the user's objective (at the parameter values last set) at Solution.values",
+                                  "got": repr(float(sol.objective_value)), "want": repr(want), "values": {k2: float(v) for k2, v in sol.values.items()}, **where()})
+            except KeyError:
+                pass
+        return cached
+
+    def observe(after_solve=True):
+        # between set() and the next solve() the cache may legitimately hold the previous values (a tree may validate it
+        # when solving): it is judged only right after a solve
+        cached = getattr(P, "_lp_cache", None) if after_solve else None
+        lpE, _ = extract_real(P)
+        if lpE is not None and not fails:
+            judge_lp("LinearProgramExtractor().extract(problem)", lpE)
+        lpF, _ = extract_real(fresh_copy(P))
+        if lpF is not None and not fails:
+            judge_lp("extract of a fresh Problem of the current model", lpF)
+            if cached is not None and lp_text(cached) != lp_text(lpF):
+                fails.append({"what": "the LP cached by solve() differs from the extraction of a fresh Problem of the current model",
+                              "cached": lp_text(cached)[:600], "fresh": lp_text(lpF)[:600], **where()})
+
+    set_objective()
+    for _ in range(rng.randint(1, 3)):
+        add_constraint()
+    steps.append("build")
+    steps.append("solve")
+    solve()
+    observe()
+    for _ in range(rng.randint(2, 6)):
+        if fails:
+            break
+        op = rng.choice(["set-one", "set-one", "set-one", "set-one", "set-two", "set-same-value", "add-constraint", "new-objective", "read-only"])
+        if op in ("set-one", "set-two"):
+            for j in rng.sample(range(npar), 1 if op == "set-one" else 2):
+                new = rng.choice([pval(), pval(), -float(pv[j]), 1.0, float(pv[j]) + 1.0])
+                if new == 0:
+                    new = 1.0
+                params[j].set(new)
+                pv[j] = Fr(new)
+                steps.append(f"parameter #{j} ({pnames[j]!r}).set({new!r})")
+        elif op == "set-same-value":
+            j = rng.randrange(npar)
+            params[j].set(float(pv[j]))
+            steps.append(f"parameter #{j} ({pnames[j]!r}).set(same value)")
+        elif op == "add-constraint":
+            add_constraint()
+            steps.append(op)
+        elif op == "new-objective":
+            set_objective()
+            steps.append(op)
+        else:
+            _ = (P.variables, P.n_variables, P.n_constraints, repr(P), P._is_linear_problem())
+            steps.append(op)
+        if rng.random() < 0.25:
+            observe(after_solve=False)                          # a fresh extract between set() and solve() must not hide / cause anything
+            steps.append("extract")
+        steps.append("solve")
+        solve()
+        if not fails:
+            observe()
+    return fails, len(steps), judged[0]
+
+
 class SkipPoint(Exception):
     pass
 
@@ -2005,6 +2300,24 @@ def run(ctx) -> core.Report:
         for ln, txt in hl:
             hist_lines.append((len(lines), txt, hseed))
             lines.append(ln)
+    # parametric linear models: solve -> set parameter(s) -> solve, LP data (cache / extract / linprog arrays) judged by the recipe
+    n_par = 1200 if thorough else 120
+    for _ in range(n_par):
+        hseed = rng.getrandbits(40)
+        try:
+            hf, nsteps, nj = run_param_history(hseed)
+        except RecursionError:
+            raise
+        except Exception as ex:  # noqa: BLE001
+            k = f"parametric history: construction raised {type(ex).__name__}"
+            rep.skipped[k] = rep.skipped.get(k, 0) + 1
+            continue
+        rep.evaluations += nsteps
+        rep.histogram["parametric history steps"] = rep.histogram.get("parametric history steps", 0) + nsteps
+        rep.histogram["parametric histories: LP data sets judged against the recipe"] = rep.histogram.get("parametric histories: LP data sets judged against the recipe", 0) + nj
+        for f in hf[:1]:
+            f.update({"tag": "param-history", "kind_of_input": "parametric history"})
+            rep.oracle_failures.append(f)
     outs = run_lean_unit(lines)
     for li, txt, hseed in hist_lines:
         if outs[li] != txt and "RecursionError" not in txt:
@@ -2163,6 +2476,15 @@ def search(ctx, rep):
             f = hf[0]
             f.update({"tag": "history"})
             return f
+    for _ in range(1500):
+        try:
+            hf, _, _ = run_param_history(rng.getrandbits(40))
+        except Exception:  # noqa: BLE001
+            continue
+        if hf:
+            f = hf[0]
+            f.update({"tag": "param-history"})
+            return f
     for fam in (view_element_cases, typed_cases, wrapper_cases, view_cases, magnitude_cases, overlap_cases, domain_bound_cases):
         for r in fam(rng):
             if isinstance(r, Case):
@@ -2211,6 +2533,12 @@ def rebuild_problem(line):
 
 def replay(payload) -> bool:
     f = payload["failure"]
+    if f.get("param_history_seed") is not None:
+        hf, nsteps, nj = run_param_history(int(f["param_history_seed"]))
+        print(f"parametric history {f['param_history_seed']}: {nsteps} steps, {nj} LP data sets judged")
+        for x in hf:
+            print("FAIL:", {k: (str(v)[:300]) for k, v in x.items()})
+        return not hf
     if f.get("history_seed") is not None:
         hf, nsteps, _ = run_history(int(f["history_seed"]))
         print(f"history {f['history_seed']}: {nsteps} steps")
